@@ -20,10 +20,51 @@
      at least one byte, never fails, never reads past the frame, delivers the content in
      order, makes progress, and does not consume the last byte of the frame before all
      content is delivered (properties C03, C08).
-   The FILE is ideal (no I/O error); a declared content size must be the real one. *)
+   The FILE is ideal (no I/O error); a declared content size must be the real one.
+
+   DECODER SIDE DISCHARGED (Proofs/FileDecInst.v).  dGetFrameInfo / dDecompress are instantiated
+   with the model of lz4frame.c's decoder (Model/FrameD.v: LZ4F_getFrameInfo, then LZ4F_decompress
+   with NULL options, capacity = the size requested, input = the bytes buffered; block decoder
+   Spec.spec_decode), and the contract is PROVED for it from the chunking simulation of
+   Proofs/FrameDChunk.v (C08):
+   - C20_dec_contract_refuted: [dec_contract] AS STATED is false of this instance - and of the
+     library: it asks LZ4F_getFrameInfo to succeed on the first k bytes for EVERY k >= 11, but
+     with a 15- or 19-byte header and fewer bytes it must return frameHeader_incomplete.
+     lz4file.c only ever passes min(19, file size) bytes, which is all the proof needs;
+   - [dec_contract_open] = the contract for that one size, on byte strings; it follows from
+     dec_contract (C20_dec_contract_open_weaker) and C20_dec_contract_open_holds proves it for
+     the FrameD instance: getFrameInfo consumes exactly the header and leaves the context where
+     LZ4F_decompress expects it; every LZ4F_decompress call with >= 1 byte of input that agrees
+     with the rest of the frame (it may extend beyond it) and room for >= 1 byte succeeds,
+     consumes nothing beyond the frame, delivers the next bytes of the content, makes progress,
+     and all content is delivered when the last byte of the frame is consumed;
+   - C20_roundtrip_open: the round trip for any decoder meeting dec_contract_open;
+   - C20_roundtrip_dec_discharged: the round trip with NO assumption on the decoder - only
+     [comp_contract] (and the typing fact [comp_writes_bytes]: byte strings in, byte strings
+     written) is left;
+   - C20_read_session_framed: the read side alone, for any file that is one frame.
+
+   COMPRESSOR SIDE DISCHARGED (Proofs/FileCompInst.v).  cBegin / cUpdate / cEnd are instantiated with
+   the byte model of lz4frame.c's compressor (Model/FrameC.v, C03/C07) plus the
+   dstMaxSize_tooSmall tests that FrameC.v leaves out, written with LZ4F_compressBound_internal of
+   the size model (Model/FrameCSizes.v, C10):
+   - [comp_contract_open] = [comp_contract] for contents below 2^64 bytes and a dictID below 2^32
+     (the byte model's theorems need both; the C types enforce them);
+   - C20_comp_contract_open_holds: for every block compressor meeting blk_contract (what it writes
+     decodes, by the strict block judgment, to its input with the history offered), every call
+     of an lz4file session succeeds within LZ4F_compressBound(maxWriteSize, prefs) bytes (19 for
+     the header) and the file is ONE frame that Spec.frame_decode decodes to the content;
+   - C20_comp_writes_bytes_holds: byte strings in, byte strings written (given that the block
+     compressor writes bytes);
+   - C20_roundtrip_discharged: the round trip through BOTH models, with no contract of the LZ4F
+     layer left: what remains assumed is the contract of the BLOCK compressors (C01/C06/C11/C12)
+     and the ties of the models to the code (C03/C08/C10/C20 correspondence runs). *)
 From Coq Require Import ZArith List Bool.
+From LZ4V Require Import Model.FrameD Proofs.FrameDProofs.   (* before Model.File: both define [dres] *)
 From LZ4V Require Import Gen.Consts Spec.BlockSpec Spec.FrameSpec Model.FrameCSizes Model.File Model.FileInst.
 From LZ4V Require Import Proofs.FileProofs Proofs.FileInstProofs.
+From LZ4V Require Import Proofs.FileDecInst Proofs.FileCompInst.
+From LZ4V Require Model.FrameC Proofs.FrameCTheorems.
 Import ListNotations.
 
 (* For ALL contents and write-size sequences (bufs : the buffers handed to successive
@@ -52,6 +93,120 @@ Theorem C20_roundtrip :
         read_session dst dst0 dGetFrameInfo dDecompress true junk file sizes = FOk (chop (concat bufs) sizes).
 Proof. exact roundtrip. Qed.
 Print Assumptions C20_roundtrip.
+
+(* ---- the decoder side, discharged with the model of lz4frame.c's decoder ---- *)
+Theorem C20_dec_contract_refuted : forall dpos, ~ dec_contract dstate dctx_init fd_info fd_dec dpos.
+Proof. exact fd_dec_contract_refuted. Qed.
+Print Assumptions C20_dec_contract_refuted.
+
+Theorem C20_dec_contract_open_weaker : forall dst dst0 dGetFrameInfo dDecompress dpos,
+  dec_contract dst dst0 dGetFrameInfo dDecompress dpos -> dec_contract_open dst dst0 dGetFrameInfo dDecompress dpos.
+Proof. exact dec_contract_open_of_dec_contract. Qed.
+Print Assumptions C20_dec_contract_open_weaker.
+
+Theorem C20_dec_contract_open_holds : dec_contract_open dstate dctx_init fd_info fd_dec fd_pos.
+Proof. exact fd_dec_contract_open. Qed.
+Print Assumptions C20_dec_contract_open_holds.
+
+Theorem C20_roundtrip_open :
+  forall (cst : Type) (cst0 : cst)
+         (cBegin : cst -> option prefs -> Z -> fres (list byte) * cst)
+         (cUpdate : cst -> list byte -> Z -> fres (list byte) * cst)
+         (cEnd : cst -> Z -> fres (list byte) * cst)
+         (dst : Type) (dst0 : dst)
+         (dGetFrameInfo : dst -> list byte -> fres (Z * nat) * dst)
+         (dDecompress : dst -> list byte -> nat -> File.dres * dst)
+         (dpos : list byte -> dst -> nat -> nat -> Prop),
+    comp_contract cst cst0 cBegin cUpdate cEnd -> comp_writes_bytes cst cst0 cBegin cUpdate cEnd ->
+    dec_contract_open dst dst0 dGetFrameInfo dDecompress dpos ->
+    forall (po : option prefs) (mw : nat) (bufs : list (list byte)) (sizes : list nat) (junk : list byte),
+      maxWrite_of po = Some mw ->
+      FileProofs.csize_ok po (concat bufs) -> bytes_ok (concat bufs) = true ->
+      exists file : list byte,
+        write_session cst cst0 cBegin cUpdate cEnd po bufs = (FOk (map (fun b => FOk (length b)) bufs), file) /\
+        frame_ok file (concat bufs) /\
+        read_session dst dst0 dGetFrameInfo dDecompress true junk file sizes = FOk (chop (concat bufs) sizes).
+Proof. exact roundtrip_open. Qed.
+Print Assumptions C20_roundtrip_open.
+
+(* C20_roundtrip with the decoder of lz4frame.c: only the compressor's contract is assumed *)
+Theorem C20_roundtrip_dec_discharged :
+  forall (cst : Type) (cst0 : cst)
+         (cBegin : cst -> option prefs -> Z -> fres (list byte) * cst)
+         (cUpdate : cst -> list byte -> Z -> fres (list byte) * cst)
+         (cEnd : cst -> Z -> fres (list byte) * cst),
+    comp_contract cst cst0 cBegin cUpdate cEnd -> comp_writes_bytes cst cst0 cBegin cUpdate cEnd ->
+    forall (po : option prefs) (mw : nat) (bufs : list (list byte)) (sizes : list nat) (junk : list byte),
+      maxWrite_of po = Some mw ->
+      FileProofs.csize_ok po (concat bufs) -> bytes_ok (concat bufs) = true ->
+      exists file : list byte,
+        write_session cst cst0 cBegin cUpdate cEnd po bufs = (FOk (map (fun b => FOk (length b)) bufs), file) /\
+        frame_ok file (concat bufs) /\
+        read_session dstate dctx_init fd_info fd_dec true junk file sizes = FOk (chop (concat bufs) sizes).
+Proof. exact roundtrip_dec_discharged. Qed.
+Print Assumptions C20_roundtrip_dec_discharged.
+
+(* the read side alone *)
+Theorem C20_read_session_framed : forall F C junk sizes,
+  frame_ok F C -> bytes_ok F = true ->
+  read_session dstate dctx_init fd_info fd_dec true junk F sizes = FOk (chop C sizes).
+Proof. exact read_session_framed. Qed.
+Print Assumptions C20_read_session_framed.
+
+(* the instance runs: LZ4F_readOpen + LZ4F_read through the model of lz4frame.c's decoder, on the
+   files of the F7 discussion and on the 19-byte frame of the refutation; and the clause that
+   fails: 11 bytes of a 15-byte header *)
+Example C20_example_framed_reads :
+  read_session dstate dctx_init fd_info fd_dec true [1; 2; 3; 4; 5; 6; 7; 8]%Z empty_frame_file [1%nat; 0%nat; 5%nat]
+    = FOk (chop [] [1%nat; 0%nat; 5%nat]) /\
+  read_session dstate dctx_init fd_info fd_dec true [9; 9]%Z (tiny_frame_file [65; 66; 67]%Z) [2%nat; 0%nat; 5%nat; 1%nat]
+    = FOk (chop [65; 66; 67]%Z [2%nat; 0%nat; 5%nat; 1%nat]) /\
+  frame_ok csize_frame [] /\ bytes_ok csize_frame = true /\
+  read_session dstate dctx_init fd_info fd_dec true [] csize_frame [3%nat] = FOk (chop [] [3%nat]) /\
+  fst (fd_info dctx_init (firstn 11 csize_frame)) = FErr FD_ERR_frameHeader_incomplete.
+Proof. vm_compute. repeat split; reflexivity. Qed.
+
+(* ---- the compressor side, discharged with the model of lz4frame.c's compressor ---- *)
+Theorem C20_comp_contract_open_holds : forall blk,
+  FrameCTheorems.blk_contract strict_valid blk ->
+  comp_contract_open FrameC.cctx FrameC.cctx_zero fc_begin (fc_update blk) (fc_end blk).
+Proof. exact fc_comp_contract_open. Qed.
+Print Assumptions C20_comp_contract_open_holds.
+
+Theorem C20_comp_writes_bytes_holds : forall blk, blk_bytes blk ->
+  comp_writes_bytes FrameC.cctx FrameC.cctx_zero fc_begin (fc_update blk) (fc_end blk).
+Proof. exact fc_writes_bytes. Qed.
+Print Assumptions C20_comp_writes_bytes_holds.
+
+(* C20_roundtrip with BOTH sides discharged: the only hypotheses left are about the block compressor *)
+Theorem C20_roundtrip_discharged : forall blk,
+  FrameCTheorems.blk_contract strict_valid blk -> blk_bytes blk ->
+  forall (po : option prefs) (mw : nat) (bufs : list (list byte)) (sizes : list nat) (junk : list byte),
+    maxWrite_of po = Some mw -> FileProofs.csize_ok po (concat bufs) -> prefs_wf po ->
+    (Z.of_nat (length (concat bufs)) < FrameC.U64)%Z -> bytes_ok (concat bufs) = true ->
+    exists file : list byte,
+      write_session FrameC.cctx FrameC.cctx_zero fc_begin (fc_update blk) (fc_end blk) po bufs
+        = (FOk (map (fun b => FOk (length b)) bufs), file) /\
+      frame_ok file (concat bufs) /\
+      read_session dstate dctx_init fd_info fd_dec true junk file sizes = FOk (chop (concat bufs) sizes).
+Proof. exact roundtrip_discharged. Qed.
+Print Assumptions C20_roundtrip_discharged.
+
+(* the hypotheses are satisfiable and the instances run: a block compressor that never compresses
+   (every block stored raw) meets both; "hello" written in two pieces with NULL preferences, read
+   back in reads of 2, 0, 9 and 1 bytes *)
+Definition blk_raw : nat -> list byte -> list byte -> option (list byte) := fun _ _ _ => None.
+Example C20_example_discharged :
+  FrameCTheorems.blk_contract strict_valid blk_raw /\ blk_bytes blk_raw /\
+  (let '(w, file) := write_session FrameC.cctx FrameC.cctx_zero fc_begin (fc_update blk_raw) (fc_end blk_raw) None
+                                   [[104; 101]%Z; [108; 108; 111]%Z] in
+   w = FOk [FOk 2%nat; FOk 3%nat] /\ frame_ok file [104; 101; 108; 108; 111]%Z /\
+   read_session dstate dctx_init fd_info fd_dec true [7; 7; 7]%Z file [2%nat; 0%nat; 9%nat; 1%nat]
+     = FOk (chop [104; 101; 108; 108; 111]%Z [2%nat; 0%nat; 9%nat; 1%nat])).
+Proof.
+  split; [intros n h x c H; discriminate H|]. split; [intros n h x c H; discriminate H|].
+  vm_compute. repeat split; reflexivity.
+Qed.
 
 (* what the read results [chop content sizes] are: the content in order ... *)
 Theorem C20_reads_deliver_content : forall sizes content,
